@@ -71,6 +71,7 @@ type Interp struct {
 	sentinel   map[string]Value
 	co         *sched
 	ext        map[string]interface{} // per-path scratch for natives
+	ext2       map[interface{}]interface{} // the same, keyed by arbitrary comparable values
 	world      *World
 	observes   []obsRec
 	concrete   map[string]uint64
